@@ -15,7 +15,7 @@ RULE = ("(a) exhaustive: every connected graph of the networkx atlas on <= 5 nod
         "must equal the brute-force expectation polynomial; (b) Hypothesis-generated histories on one shared evaluator "
         "over a pool of distinctly named motifs (atlas graphs, cliques <= 6, cycles <= 9, trees, relabelled ids): each "
         "step evaluates (motif, focal, phi, heterogeneous u) with exact Fractions and must equal the oracle. "
-        "Non-trivial = motif with >= 3 vertices and a cycle (a), or history with >= 2 motifs and >= 2 different phi on "
+        "In (a) the identity is also evaluated at 9-15 special points with plain numbers (all u equal, all one, all zero, product of u exactly 1 with unequal factors, phi in {0,1}). Non-trivial = motif with >= 3 vertices and a cycle (a), or history with >= 2 motifs and >= 2 different phi on "
         "one motif (b); distinct = canonical JSON")
 ASSUMPTIONS = ["motifs evaluated on one evaluator carry distinct names (the documented cache key)",
                "the equation code is duck typed: exact Poly/Fraction arguments flow through unchanged arithmetic"]
@@ -51,6 +51,16 @@ def enumerated(tier, seed):
             for root in G.nodes():
                 cases.append({"kind": "identity", "name": f"atlas{i}-neg", "edges": [[g(a), g(b)] for a, b in G.edges()],
                               "root": g(root)})
+        if 3 <= G.number_of_nodes() <= 5:
+            # one vertex named by the frozenset of two adjacent vertices' names (it equals, as a set, a connected vertex
+            # set of the motif): for every edge (a, b) and every third vertex w, focal vertex a
+            done = 0
+            for a, b in G.edges():
+                for w in G.nodes():
+                    if w not in (a, b) and done < 4:
+                        cases.append({"kind": "identity", "name": f"atlas{i}-set{done}", "edges": [list(e) for e in G.edges()],
+                                      "root": a, "set_label": [a, b, w]})
+                        done += 1
         if G.number_of_nodes() <= 5:
             # the same motif with ids beyond the small-int cache, edges listed (larger, smaller), focal id passed
             # as a separately created equal object
@@ -130,6 +140,16 @@ def graph_of(name, edges, uvals):
     return G
 
 
+def relabel(case):
+    """vertex names are arbitrary hashables.  "set_label": [a, b, w] names vertex w by the frozenset {a, b} of two other
+    vertices' names (as quotient / incidence constructions do); the oracle keeps working on the integer ids."""
+    sl = case.get("set_label")
+    if not sl:
+        return lambda v: v
+    fs = frozenset(sl[:2])
+    return lambda v: fs if v == sl[2] else v
+
+
 _oracle_cache = {}
 
 
@@ -164,7 +184,8 @@ def special_points(case, edges, root, nodes, want):
                     pts.append((tag, 0.5 if shift == 0 else 0.2, us))
     for tag, phi, us in pts:
         us = {**us, root: 7.0}  # the focal vertex's own value is not part of the expectation
-        Gn = graph_of(case["name"] + "@" + tag, edges, us)
+        rl = relabel(case)
+        Gn = graph_of(case["name"] + "@" + tag, [[rl(a), rl(b)] for a, b in edges], {rl(v_): x for v_, x in us.items()})
         g = call("automated_equation", AutomatedEquation().automated_equation, Gn, phi, int(str(root)))
         w = want.subs({**{f"u{v_}": Fraction(x) for v_, x in us.items()}, "p": Fraction(phi)})
         if abs(float(g) - float(w)) > 1e-9 * max(1.0, abs(float(w))):
@@ -178,12 +199,17 @@ def check(case):
     if case["kind"] == "identity":
         edges, root = case["edges"], case["root"]
         nodes = sorted({v for e in edges for v in e})
-        G = graph_of(case["name"], edges, {v: Poly.var(f"u{v}") for v in nodes})
+        rl = relabel(case)
+        ledges = [[rl(a), rl(b)] for a, b in edges]
+        G = graph_of(case["name"], ledges, {rl(v): Poly.var(f"u{v}") for v in nodes})
         want = oracle_poly(edges, root)
         try:
             got = call("automated_equation", AutomatedEquation().automated_equation, G, Poly.var("p"), int(str(root)))
         except Violation as v:
-            if not (":TypeError@" in v.kind and ("Poly" in v.msg or "unsupported operand" in v.msg)):
+            # any TypeError / ValueError met while *polynomial objects* are pushed through the code only says that the
+            # exact polynomial type was not accepted (an implementation may insist on real numbers): the same motif is
+            # then judged with exact rationals and plain numbers, where a genuine error shows again
+            if not (":TypeError@" in v.kind or ":ValueError@" in v.kind):
                 raise
             # the exact polynomial type could not be pushed through the code: evaluate exactly on rational points instead
             import itertools
@@ -191,7 +217,7 @@ def check(case):
             for gi, phi in enumerate(grid):
                 for rep in range(3):
                     us = {v_: grid[(gi + rep + 2 * k_) % len(grid)] for k_, v_ in enumerate(nodes)}
-                    Gn = graph_of(case["name"] + f"#{gi}.{rep}", edges, us)
+                    Gn = graph_of(case["name"] + f"#{gi}.{rep}", ledges, {rl(v_): x for v_, x in us.items()})
                     g = call("automated_equation", AutomatedEquation().automated_equation, Gn, phi, int(str(root)))
                     w = want.subs({**{f"u{v_}": x for v_, x in us.items()}, "p": phi})
                     if abs(float(g) - float(w)) > 1e-9 * max(1.0, abs(float(w))):
@@ -207,12 +233,13 @@ def check(case):
                                                    f"from the exact expectation; difference has {len(diff.t)} terms, e.g. {str(diff)[:300]}")
         H = nx.Graph(list(map(tuple, edges)))
         cyc = H.number_of_edges() >= H.number_of_nodes()
-        return {"nontrivial": len(nodes) >= 3 and cyc, "classes": [f"n{len(nodes)}"] + (["has_cycle"] if cyc else ["tree"])}
+        return {"nontrivial": len(nodes) >= 3 and cyc, "classes": [f"n{len(nodes)}"] + (["has_cycle"] if cyc else ["tree"]) +
+                (["vertex_named_by_a_frozenset_of_vertices"] if case.get("set_label") else [])}
     if not case.get("plain") and not case.get("_retry"):
         try:
             return check({**case, "_retry": True})
         except Violation as v:
-            if ":TypeError@" in v.kind and ("Poly" in v.msg or "unsupported operand" in v.msg):
+            if ":TypeError@" in v.kind or ":ValueError@" in v.kind:
                 # the exact polynomial type could not be pushed through the code: judge the same history with plain numbers
                 return check({**case, "plain": True})
             raise
